@@ -200,6 +200,29 @@ Definition do_cmp (op : cmpop) (t : ty) (a b : rval) (s : rstate) : res rval :=
 Definition as_str (v : rval) (s : rstate) : res bytes :=
   match v with RStr x => ROk x s | _ => fail REType s end.
 
+Definition do_strtol (va vb : rval) (s : rstate) : res rval :=
+  match va, vb with
+  | RStr x, RInt b =>
+      if (b <=? 0) || (max_int32 <=? b) then fail RERange s
+      else match parse_int E x b 64 with
+           | Some z => ROk (RInt z) s
+           | None => fail REConv s
+           end
+  | _, _ => fail REType s
+  end.
+
+Definition do_subst (vo vn vv : rval) (s : rstate) : res rval :=
+  match vo, vn, vv with
+  | RStr o, RStr n, RStr v => ROk (RStr (str_replace E v o n)) s
+  | _, _, _ => fail REType s
+  end.
+
+Definition do_rsubst (pid : N) (vn vv : rval) (s : rstate) : res rval :=
+  match vn, vv with
+  | RStr n, RStr v => ROk (RStr (re_replace E pid v n)) s
+  | _, _ => fail REType s
+  end.
+
 (* ---- expressions ---- *)
 
 Fixpoint eval (e : expr) (s : rstate) {struct e} : res rval :=
@@ -248,25 +271,12 @@ Fixpoint eval (e : expr) (s : rstate) {struct e} : res rval :=
   | ETolower a =>
       bind (eval a s) (fun va s1 => bind (as_str va s1) (fun x s2 => ROk (RStr (to_lower E x)) s2))
   | EStrtol a base =>
-      bind (eval a s) (fun va s1 => bind (as_str va s1) (fun x s2 =>
-        bind (eval base s2) (fun vb s3 =>
-          match vb with
-          | RInt b => if (b <=? 0) || (max_int32 <=? b) then fail RERange s3
-                      else match parse_int E x b 64 with
-                           | Some z => ROk (RInt z) s3
-                           | None => fail REConv s3
-                           end
-          | _ => fail REType s3
-          end)))
+      bind (eval a s) (fun va s1 => bind (eval base s1) (fun vb s2 => do_strtol va vb s2))
   | ESubst old new val =>
-      bind (eval old s) (fun vo s1 => bind (as_str vo s1) (fun o s2 =>
-      bind (eval new s2) (fun vn s3 => bind (as_str vn s3) (fun n s4 =>
-      bind (eval val s4) (fun vv s5 => bind (as_str vv s5) (fun v s6 =>
-        ROk (RStr (str_replace E v o n)) s6))))))
+      bind (eval old s) (fun vo s1 => bind (eval new s1) (fun vn s2 =>
+        bind (eval val s2) (fun vv s3 => do_subst vo vn vv s3)))
   | ERsubst pid new val =>
-      bind (eval new s) (fun vn s1 => bind (as_str vn s1) (fun n s2 =>
-      bind (eval val s2) (fun vv s3 => bind (as_str vv s3) (fun v s4 =>
-        ROk (RStr (re_replace E pid v n)) s4))))
+      bind (eval new s) (fun vn s1 => bind (eval val s1) (fun vv s2 => do_rsubst pid vn vv s2))
   | ETimestamp =>
       ROk (RInt (if time_is_zero (time_reg s) then now_sec E else time_unix (time_reg s))) s
   | EGetfilename => ROk (RStr file) s
